@@ -63,7 +63,7 @@ func progAlphabet(withDecimal bool) []progSym {
 		{"ADC #$7F01", immM(0x69, 0x01, 0x7F)}, {"CPX #$00FF", immX(0xE0, 0xFF, 0x00)},
 	}
 	if withDecimal {
-		s = append(s, progSym{"SED", fixed(0xF8)}, progSym{"SBC #$0199", immM(0xE9, 0x99, 0x01)})
+		s = append(s, progSym{"SED", fixed(0xF8)}, progSym{"SBC #$0199", immM(0xE9, 0x99, 0x01)}, progSym{"ADC #$1299", immM(0x69, 0x99, 0x12)}, progSym{"LDA #$0905", immM(0xA9, 0x05, 0x09)})
 	}
 	return s
 }
@@ -370,11 +370,6 @@ func progReplay(p progPath, seeds []progSeed, syms []progSym, useRef bool, o pro
 
 func c01ProgOracle(e *progEnv, res *progStepResult) (sig, what string, descend bool) {
 	mn := ref65816.Table[res.bytes[0]].Mn
-	if res.refPre.P&ref65816.FD != 0 && (mn == "ADC" || mn == "SBC") {
-		// decimal arithmetic is judged by the single-step sweeps (with the don't-care mask and the
-		// quirk classification); its successor state is not fully specified, so the path ends here.
-		return "", "", false
-	}
 	for i := 0; i < 2; i++ {
 		mem := e.x.ms[i].Mem()
 		var d []string
@@ -392,8 +387,16 @@ func c01ProgOracle(e *progEnv, res *progStepResult) (sig, what string, descend b
 				fmt.Sprintf("%s after %v from seed state %d: differs in %v | want %+v | got %+v", name, e.pathNames(), e.seed, d, res.want, alpha(res.post[i].raw)), false
 		}
 	}
-	if res.care.Loose || res.care.IgnoreA || res.care.IgnoreP != 0 || res.want.E {
-		return "", "", false // STP/WAI: nothing further is specified; E=1 is outside C01
+	if res.care.Loose || res.care.IgnoreA || res.want.E {
+		return "", "", false // STP/WAI, invalid BCD: the successor is not fully specified; E=1 is outside C01
+	}
+	if res.care.IgnoreP != 0 {
+		// valid-BCD decimal arithmetic leaves only V open: adopt the implementation's V and go on, unless
+		// the two interpreters disagree about it (that is C02's business)
+		if (res.post[0].raw.P^res.post[1].raw.P)&res.care.IgnoreP != 0 {
+			return "", "", false
+		}
+		e.ref.P = e.ref.P&^res.care.IgnoreP | res.post[0].raw.P&res.care.IgnoreP
 	}
 	return "", "", true
 }
@@ -403,7 +406,7 @@ func c01Programs(r *report.Run, o cpuSweepOpts) (states, transitions int64) {
 	if o.thorough {
 		depth = 5
 	}
-	syms := progAlphabet(false)
+	syms := progAlphabet(true)
 	seeds := progSeeds(false)
 	st, tr := progSearch(depth, seeds, syms, true, 0x9E3779B9, progVisitOf(r, 0x9E3779B9, c01ProgOracle))
 	r.Set("program_search", map[string]interface{}{"depth": depth, "alphabet": len(syms), "seed_states": len(seeds), "distinct_states": st, "steps_executed": tr})
